@@ -182,7 +182,7 @@ static void structured(uint64_t h, int c) {
 static void ph_full(void *u) {
     for (size_t i = 0; i < g_full.n; i++) {
         if (!mc_mine(i)) continue;
-        if ((i & 15) == 0 && mc_expired()) return;
+        if (mc_tick(15)) return;
         uint64_t h = g_full.v[i];
         mc_states(1);
         for (int c = spec_res(h); c <= spec_res(h) + g_fulldepth && c <= 15; c++) MC_RUN(OP_ALL, H(h), I(c));
@@ -218,7 +218,7 @@ static void ph_kids(void *u) {
 static void ph_fine(void *u) {
     for (size_t i = 0; i < g_fine.n; i++) {
         if (!mc_mine(i)) continue;
-        if ((i & 15) == 0 && mc_expired()) return;
+        if (mc_tick(15)) return;
         uint64_t h = g_fine.v[i];
         int res = spec_res(h);
         mc_states(1);
